@@ -43,7 +43,9 @@ def other_pkg_file():
                           message('ListPricesResponse', [field('prices', 1, f'.{op}.Money', repeated=True), field('next_page_token', 2, 'string')])])
 
 
-def build():
+def build(isolated=None):
+    """isolated=(arity, request location, response location): a library with exactly that one RPC (same files and dependencies),
+    so that no neighbouring method provides the imports its code needs."""
     local_msgs = []
     kind = enum('Color', 'COLOR_UNSPECIFIED', 'RED', 'BLUE')
     mf, me = map_field(Q('LocalReq'), 'attrs', 6, 'string', 'int32')
@@ -65,20 +67,23 @@ def build():
     for ar, (cs, ss) in ARITIES.items():
         ms = []
         for i, (rq, rs) in enumerate(itertools.product(REQ_LOCS, RESP_LOCS)):
+            if isolated and isolated != (ar, rq, rs):
+                continue
             name = f'M{ar.capitalize()}{i}'
             ms.append(method(name, REQ_LOCS[rq], RESP_LOCS[rs], cs=cs, ss=ss))
-            cells.append(dict(id=f'{ar}/{rq}/{rs}/plain', service=f'Svc{ar.capitalize()}', rpc=name,
+            cells.append(dict(id=f'{ar}/{rq}/{rs}/' + ('isolated' if isolated else 'plain'), service=f'Svc{ar.capitalize()}', rpc=name,
                               py=names.py_method(name), arity=KIND[ar], req=REQ_LOCS[rq], resp=RESP_LOCS[rs]))
-        services.append(service(f'Svc{ar.capitalize()}', ms))
+        if ms:
+            services.append(service(f'Svc{ar.capitalize()}', ms))
     ms = []
-    for i, kw in enumerate(KEYWORD_RPCS):
+    for i, kw in enumerate(KEYWORD_RPCS if not isolated else ()):
         assert keyword.iskeyword(kw.lower())
         ar = list(ARITIES)[i % 4]
         cs, ss = ARITIES[ar]
         ms.append(method(kw, Q('LocalReq'), Q('LocalResp'), cs=cs, ss=ss))
         cells.append(dict(id=f'{ar}/same/same/keyword:{kw}', service='Names', rpc=kw, py=kw.lower() + '_',
                           arity=KIND[ar], req=Q('LocalReq'), resp=Q('LocalResp')))
-    for i, n in enumerate(UNSAFE_RPCS):
+    for i, n in enumerate(UNSAFE_RPCS if not isolated else ()):
         for ar, (cs, ss) in ARITIES.items():
             if n in ('Close', 'Kind') and ar != 'uu':
                 continue
@@ -86,14 +91,18 @@ def build():
             ms.append(method(nm, Q('LocalReq'), Q('LocalResp'), cs=cs, ss=ss))
             cells.append(dict(id=f'{ar}/same/same/unsafe:{nm}', service='Names', rpc=nm, py=names.py_method(nm),
                               arity=KIND[ar], req=Q('LocalReq'), resp=Q('LocalResp')))
-    services.append(service('Names', ms))
+    if ms:
+        services.append(service('Names', ms))
     # paginated RPCs whose request and response types come from a dependency package (the returned pager wraps the reply)
     ms = []
     for nm, rq, rs in (('ListDepInstalled', '.google.cloud.location.ListLocationsRequest', '.google.cloud.location.ListLocationsResponse'),
                        ('ListDepSynth', '.acme.other.v1.ListPricesRequest', '.acme.other.v1.ListPricesResponse')):
+        if isolated:
+            break
         ms.append(method(nm, rq, rs))
         cells.append(dict(id=f'uu/paged/{nm}', service='Paged', rpc=nm, py=names.py_method(nm), arity=KIND['uu'], req=rq, resp=rs))
-    services.append(service('Paged', ms))
+    if ms:
+        services.append(service('Paged', ms))
     main = file('acme/rpc/v1/svc.proto', P, messages=local_msgs, enums=[kind], services=services)
     dep = other_pkg_file()
     mods = ['google.iam.v1.iam_policy_pb2', 'google.cloud.location.locations_pb2']
@@ -160,6 +169,21 @@ def make_pp_job(cells_subset=None, seed=0):
                                 svc_proto_package={'Admin': PW + '.admin'})), cells
 
 
+ISOLATED_ARITIES = ('uu', 'us')
+
+
+def make_isolated_jobs(cells_subset=None, seed=0):
+    out = []
+    for ar, rq, rs in itertools.product(ISOLATED_ARITIES, REQ_LOCS, RESP_LOCS):
+        if cells_subset is not None and f'{ar}/{rq}/{rs}/isolated' not in cells_subset:
+            continue
+        req, cells, dep = build(isolated=(ar, rq, rs))
+        out.append((dict(id=f'c03-isolated/{ar}/{rq}/{rs}', req=req.SerializeToString(), probe='mc.probes.grpc_calls',
+                         pb2_files=[dep.SerializeToString()],
+                         probe_args=dict(package=names.import_package(P), proto_package=P, cells=cells, seed=seed, no_conformance=True)), cells))
+    return out
+
+
 def make_job(cells_subset=None, seed=0):
     req, cells, dep = build()
     if cells_subset is not None:
@@ -176,18 +200,28 @@ def run(ctx):
     # a sample of the cells once more with client logging switched on
     dcells = [dict(c, id='debug-logging/' + c['id']) for c in cells[::5]]
     djob = dict(job, id='c03-debug-logging', probe_args=dict(job['probe_args'], cells=dcells, debug_logging=True))
-    res, ppres, dres = engine.run_jobs([job, ppjob, djob])
+    iso = make_isolated_jobs(seed=ctx.seed)
+    results = engine.run_jobs([job, ppjob, djob] + [j for j, _ in iso])
+    res, ppres, dres = results[:3]
     consume(ctx, res, cells)
     consume(ctx, ppres, ppcells, floor=False)
     consume(ctx, dres, dcells, floor=False)
+    conf = ctx.extra.get('seam_conformance')
+    for (j, icells), ires in zip(iso, results[3:]):
+        consume(ctx, ires, icells, floor=False, state=dict(cells=[c['id'] for c in icells]))
+    ctx.extra['seam_conformance'] = conf
     ctx.extra['bound'] = 'complete product of arity x request location x response location; name cells; all request forms; valuations {empty, each field alone, all}'
     ctx.assume('the asyncio stream-unary method returns an awaitable call object (api-core); the probe awaits it to obtain the reply')
 
 
-def consume(ctx, res, cells, floor=True):
+_PACKED_FPS = set()
+
+
+def consume(ctx, res, cells, floor=True, state=None):
+    tag = (cells[0]['id'] + '|') if state else ''
     if not res['gen']['ok']:
-        ctx.violation(f'generation:{res["gen"]["etype"]}:{res["gen"]["where"]}',
-                      f'generator failed on the C03 pack: {res["gen"]["emsg"][:300]}', dict(cells='all'))
+        ctx.violation(f'{tag}generation:{res["gen"]["etype"]}:{res["gen"]["where"]}',
+                      f'generator failed on the C03 pack: {res["gen"]["emsg"][:300]}', state or dict(cells='all'))
         ctx.state(1)
         return
     if 'probe_error' in res:
@@ -195,7 +229,7 @@ def consume(ctx, res, cells, floor=True):
     obs = res['obs']
     if obs.get('import_error'):
         e = obs['import_error']
-        ctx.violation(f'import:{e["etype"]}:{e["where"]}', f'C03 pack does not import: {e["emsg"]}', dict(cells='all'))
+        ctx.violation(f'{tag}import:{e["etype"]}:{e["where"]}', f'C03 pack does not import: {e["emsg"]}', state or dict(cells='all'))
         ctx.state(1)
         return
     n_calls = obs['calls']
@@ -213,6 +247,10 @@ def consume(ctx, res, cells, floor=True):
                                          skipped=conf.get('skipped'))
     for f in obs['failures']:
         fp = f'{f["cell"]}|{f["client"]}|{f["form"]}|{f["kind"]}'
+        if f['cell'].endswith('/isolated') and fp.replace('/isolated|', '/plain|') in _PACKED_FPS:
+            fp = fp.replace('/isolated|', '/plain|')        # the same failure as in the packed library: one finding
+        elif not state:
+            _PACKED_FPS.add(fp)
         ctx.violation(fp, f'{f["cell"]} {f["client"]} form={f["form"]} val={f["val"]} reply={f["reply"]}: '
                           f'{f["kind"]}: {f["detail"]}', dict(cells=[f['cell']]))
     if conf.get('mismatches') and not ctx.violations:
@@ -229,6 +267,15 @@ def replay(ctx, state):
         job = dict(job, probe_args=dict(job['probe_args'], cells=cells, debug_logging=True))
         res, = engine.run_jobs([job])
         return consume_replay(ctx, res, cells)
+    if sub and all(c.endswith('/isolated') for c in sub):
+        for job, cells in make_isolated_jobs(sub, seed=ctx.seed):
+            res, = engine.run_jobs([job])
+            try:
+                consume(ctx, res, cells, floor=False, state=dict(cells=[c['id'] for c in cells]))
+            except HarnessError as e:
+                if 'collapsed' not in str(e):
+                    raise
+        return
     for mk in (make_job, make_pp_job):
         job, cells = mk(sub, seed=ctx.seed)
         if cells:
